@@ -9,7 +9,7 @@ if ! git -C $wt apply "$patch" 2>/dev/null; then echo "$name patch-does-not-appl
 files=$(git -C $wt diff --name-only | tr '\n' ' ')
 tot_v=0; tot_u=0; bad=""
 for p in C01 C02 C03 C04 C05 C06 C07 C08 C09 C10 C11 C12 C13 C14 C15 C17 C18; do
-  out=$(cd /verif && PYVC_REPO=$wt ./check $p --tier quick --no-evidence 2>&1)
+  out=$(cd ${PYVC_SNAP:-/verif} && PYVC_REPO=$wt ./check $p --tier quick --no-evidence 2>&1)
   rc=$?
   v=$(echo "$out" | grep -c "^VIOLATION"); u=$(echo "$out" | grep -c "^UNDECIDED")
   tot_v=$((tot_v+v)); tot_u=$((tot_u+u))
